@@ -11,6 +11,9 @@
   {"vname": "lit_fit21", "defines": ["-DV_LIT", "-DV_SIZE=21"]},
   {"vname": "lit_fit32", "defines": ["-DV_LIT", "-DV_SIZE=32"]},
   {"vname": "lit_over10","defines": ["-DV_LIT", "-DV_SIZE=10", "-DV_FAILS"]},
+  {"vname": "pct_edge10", "defines": ["-DV_PCT", "-DV_SIZE=10", "-DV_FAILS"]},
+  {"vname": "pct_edge11", "defines": ["-DV_PCT", "-DV_SIZE=11", "-DV_FAILS"]},
+  {"vname": "pct_edge12", "defines": ["-DV_PCT", "-DV_SIZE=12", "-DV_FAILS"]},
   {"vname": "conv_fit",  "defines": ["-DV_CONV", "-DV_LO=0", "-DV_HI=30"]},
   {"vname": "conv_over", "defines": ["-DV_CONV", "-DV_LO=31", "-DV_HI=1000", "-DV_FAILS"]}]}
 */
@@ -21,6 +24,9 @@
  *     lit_fit11/21/32   : room for the leading literal and a terminator -- a cut conversion and a cut
  *                         trailing literal are handled (snprintf and strlcat are bounded); 11 is the smallest such size
  *     lit_over10        : the leading literal is copied with an unguarded memcpy; 10 is the largest such size
+ * Template pct : "0123456789%%" (10 literal characters, then a literal percent sign) into a buffer of 10, 11 and 12 bytes:
+ *                the literal segment ends exactly at / one before / two before the end of the buffer; the '%' that
+ *                follows must never be stored at or beyond string[size] (seed C14-m3: an off-by-one in the room test).
  * Template conv: "%*d|%d" with width nd_w (so the first conversion prints max(nd_w, 1) characters -- also natively)
  *                into 32 bytes.
  *     conv_fit  nd_w <= 30 : "<w chars>|" and a terminator fit
@@ -38,7 +44,16 @@ void harness(void)
 	size_t dl = 0, rl, len = 0;
 	ASSUME(rec != NULL);
 	verif_pf_n = 0; verif_pf_total = 0; verif_pf_scripted = 0;
-#ifdef V_LIT
+#ifdef V_PCT
+	rl = call_serialize(rec, 64, "0123456789%%");
+	POST(rl == 13, "AUX: the record is the format and its terminator");
+	text = malloc(V_SIZE);
+	ASSUME(text != NULL);
+	len = V_SIZE;
+	verif_pf_text = text;
+	dl = qb_vsnprintf_deserialize(text, V_SIZE, rec);
+	COVER(1);
+#elif defined(V_LIT)
 	ASSUME(nd_ret0 >= 0 && nd_ret0 <= 1000);
 	verif_pf_script[0] = nd_ret0; verif_pf_scripted = 1;
 	rl = call_serialize(rec, 64, "0123456789%dABCDEFGHIJ", 7);
